@@ -75,6 +75,12 @@ class Pool:
         self.child_piece = fa.parse_schema({"type": "record", "name": "Child", "namespace": "pw", "fields": [{"name": "x", "type": "int"}]}, self._shared)
         self.parent_piecewise = fa.parse_schema({"type": "record", "name": "Parent", "namespace": "pw", "fields": [
             {"name": "c", "type": "pw.Child"}, {"name": "cs", "type": {"type": "array", "items": "Child"}}]}, self._shared)
+        self.nested_defaults = fa.parse_schema({"type": "record", "name": "NDf", "namespace": "nd", "fields": [
+            {"name": "k", "type": "int"},
+            {"name": "aa", "type": {"type": "array", "items": {"type": "array", "items": "int"}}, "default": [[1, 2], [3]]},
+            {"name": "ma", "type": {"type": "map", "values": {"type": "array", "items": "string"}}, "default": {"k": ["a", "b"]}},
+            {"name": "ra", "type": {"type": "record", "name": "Ra", "fields": [{"name": "xs", "type": {"type": "array", "items": "int"}}]}, "default": {"xs": [7, 8]}}]})
+        self.block = next(iter(fa.block_reader(io.BytesIO(_container_const(fa)))))  # a Block handed to write_block
         self.named = {}  # caller-supplied named-schema dictionary (may be filled)
         self.tmpdir = tmpdir
 
@@ -126,6 +132,30 @@ def _container(fa, schema, recs, **kw):
     fo = io.BytesIO()
     fa.writer(fo, schema, recs, sync_marker=b"C" * 16, **kw)
     return fo.getvalue()
+
+
+def _block_copy(fa, blk):
+    from fastavro._write_py import Writer
+
+    out = io.BytesIO()
+    w = Writer(out, copy.deepcopy(A), sync_marker=b"B" * 16, codec="deflate")
+    w.write_block(blk)
+    w.flush()
+    return (out.getvalue(), list(fa.reader(io.BytesIO(out.getvalue()))))
+
+
+def _block_twice(fa):
+    from fastavro._write_py import Writer
+
+    blk = next(iter(fa.block_reader(io.BytesIO(_container_const(fa)))))
+    outs = []
+    for _ in range(2):
+        out = io.BytesIO()
+        w = Writer(out, copy.deepcopy(A), sync_marker=b"B" * 16)
+        w.write_block(blk)
+        w.flush()
+        outs.append(out.getvalue())
+    return (outs, list(blk), list(blk))
 
 
 def _load(fa, p):
@@ -209,6 +239,12 @@ CALLS = {
     "container_union_piecewise": lambda fa, p: list(fa.reader(io.BytesIO(_container(fa, [p.child_piece, p.parent_piecewise], [{"x": 5}, {"c": {"x": 1}, "cs": []}])))),
     "write_piecewise": lambda fa, p: _sl_write(fa, p.parent_piecewise, {"c": {"x": 1}, "cs": [{"x": 2}]}),
     "json_write_piecewise": lambda fa, p: _json_write(fa, p.parent_piecewise, [{"c": {"x": 1}, "cs": []}]),
+    "json_read_nested_defaults": lambda fa, p: list(fa.json_reader(io.StringIO('{"k": 1}\n{"k": 2}'), p.nested_defaults)),
+    "write_nested_defaults": lambda fa, p: _sl_write(fa, p.nested_defaults, {"k": 1}),
+    "read_reader_nested_defaults": lambda fa, p: fa.schemaless_reader(io.BytesIO(b"\x02"), {"type": "record", "name": "NDf", "namespace": "nd", "fields": [{"name": "k", "type": "int"}]}, p.nested_defaults),
+    # a Block taken from block_reader and used more than once
+    "block_copy_pool": lambda fa, p: _block_copy(fa, p.block),
+    "block_copy_twice": lambda fa, p: _block_twice(fa),
     "dec3_read": lambda fa, p: fa.schemaless_reader(io.BytesIO(_enc("dec3")), p.dec3),
     "dec12_read": lambda fa, p: fa.schemaless_reader(io.BytesIO(_enc("dec12")), p.dec12),
     "dec_write": lambda fa, p: _sl_write(fa, p.dec12, decimal.Decimal("-42")),
@@ -262,6 +298,8 @@ def snap(o, memo=None, depth=0):
             return type(o).__name__ + "[" + ",".join(snap(x, memo, depth + 1) for x in o) + "]"
         if isinstance(o, (set, frozenset)):
             return "set{" + ",".join(sorted(snap(x, memo, depth + 1) for x in o)) + "}"
+        if isinstance(o, (io.BytesIO, io.StringIO)):
+            return f"<{type(o).__name__} pos={o.tell()} value={o.getvalue()!r}>"
         if isinstance(o, decimal.Context):
             return f"Context({o.prec},{o.rounding},{o.Emin},{o.Emax},{o.capitals},{o.clamp},{sorted(map(str, o.flags))},{sorted(map(str, o.traps))})"
         if callable(o) and hasattr(o, "__qualname__"):
@@ -393,7 +431,7 @@ COLLIDERS = ["parse_a_into_named", "parse_b_into_named", "expand_a", "expand_nod
              "read_a_as_b", "read_b_as_a", "json_read_a_absent", "json_read_a_raw_absent", "json_read_b_absent", "generate_a", "generate_b_raw",
              "dec3_read", "dec12_read", "write_a_bad_last", "container_a", "container_read_a_as_b", "validate_a_raises", "load_schema",
              "parse_node_parsed_into_named", "write_node", "read_a", "read_b", "read_dangling_sub", "canon_piecewise", "container_piecewise",
-             "container_union_piecewise", "container_read_a", "generate_dangling"]
+             "container_union_piecewise", "container_read_a", "generate_dangling", "json_read_nested_defaults", "block_copy_twice", "block_copy_pool"]
 
 
 def step_check(res, fa, pool, hist, call):
